@@ -131,6 +131,7 @@ def rule_prefixes_are_names(ck, F, rule="R7"):
             cache[path] = og.with_literal_consts(F, Hh.norm_body(b))
         return cache[path]
     verdicts = {}
+    reserved = {}
 
     def guard_ok(path):
         """is `path` a function of the crate from text to text whose every result is an NCName?"""
@@ -146,6 +147,11 @@ def rule_prefixes_are_names(ck, F, rule="R7"):
         except (IG.Unsupported, Hh.Unrecognised, og.Unrecognised):
             return None
         verdicts[path] = (not cex, tried, classes, cex)
+        try:
+            _t, rcex, _c = IG.decide(local_fn(path), local_fn, IG.BOUND, legal=IG.reserved_xml_prefix, extra_chars="xmlXML")
+            reserved[path] = rcex
+        except (IG.Unsupported, Hh.Unrecognised, og.Unrecognised) as u:
+            reserved[path] = {"undecided": ("?", "?", str(u))}
         return verdicts[path]
 
     def leaves(v):
@@ -183,6 +189,17 @@ def rule_prefixes_are_names(ck, F, rule="R7"):
                 break
         if bad is None:
             ck.ok(rule, "prefix-is-a-name", site, f"{short}: every returned abbreviation begins with the result of a guard whose results are XML names for all inputs")
+            # .. and none of them is a reserved prefix: `xml` is bound to the XML namespace by definition and writers do not declare it
+            res = [(p_, c_) for p_, c_ in sorted(reserved.items()) if c_]
+            if res:
+                p_, c_ = res[0]
+                inp, outp, why = list(c_.values())[0]
+                ck.violation(rule, "prefix-not-reserved", site,
+                             f"{short} can return an abbreviation that starts with `xml` ({p_.rsplit('::', 1)[-1]} returns {outp!r} for {inp!r}): a namespace whose "
+                             f"last path segment starts with `xml` (`.../xmlconfig`) gets the reserved prefix; the writer does not declare it and "
+                             f"`<xml:Setting>` lies in the XML namespace, not in the schema's")
+            else:
+                ck.ok(rule, "prefix-not-reserved", site, f"{short}: no returned abbreviation starts with the reserved `xml`")
         else:
             leaf, h, g = bad
             why = (f"the guard {h[1].rsplit('::', 1)[-1]} returns {list(g[3].values())[0][1]!r} for {list(g[3].values())[0][0]!r}" if g and g[3] else
